@@ -146,6 +146,7 @@ def render (r : RenderReq) : Outcome :=
   | .error (.template cls msg tok) =>
     let (l, c) := Tok.location body tok
     .templateError cls msg tok l c
+  | .error (.templateNoSrc cls msg tok) => .templateError cls msg { str := tok, pos := 0 } 0 0
   | .error (.crash cls) => if cls.startsWith "unsupported" then .unsupported cls else .crash cls
   | .ok (node, macros) =>
     let fuel := 8 * body.length + 64
@@ -157,6 +158,7 @@ def render (r : RenderReq) : Outcome :=
     | .error (.template cls msg tok) =>
       let (l, c) := Tok.location body tok
       .templateError cls msg tok l c
+    | .error (.templateNoSrc cls msg tok) => .templateError cls msg { str := tok, pos := 0 } 0 0
     | .error (.crash cls) => if cls.startsWith "unsupported" then .unsupported cls else .crash cls
     | .ok () =>
       let cfg : ECfg := { tc := tc, tab := r.tab, pyBuiltins := r.pyBuiltins, talesExc := r.talesExc,
